@@ -387,6 +387,17 @@ func load(cmdline, environ, envprefix []string, props *properties.Properties) (c
 		}
 	}
 
+	// the providers which push their metrics run a ticker with this
+	// interval, which panics at start-up if it is not positive
+	if cfg.Metrics.Interval <= 0 {
+		for _, t := range strings.Split(cfg.Metrics.Target, ",") {
+			switch strings.TrimSpace(t) {
+			case "statsd_raw", "dogstatsd", "graphite", "circonus":
+				return nil, fmt.Errorf("metrics.interval must be greater than 0")
+			}
+		}
+	}
+
 	if cfg.Registry.Consul.AllowStale && cfg.Registry.Consul.RequireConsistent {
 		return nil, fmt.Errorf("registry.consul.allowStale and registry.consul.requireConsistent cannot both be true")
 	}
